@@ -134,6 +134,8 @@ func loadCorpus() []corpusEntry {
 	return out
 }
 
+var optDomains []*drv.Domain
+
 func main() {
 	ck := &drv.Check{Property: "C03", Level: "model_checking",
 		Rule: "bounded exhaustive enumeration: the full cross product seeds x messages of a fixed scope (lengths 0,1,7,31,32,33,135,136,137,271,272,273,4595,10000 x two fills) plus the boundary corpus; " +
@@ -239,6 +241,13 @@ func main() {
 			fmt.Println("warning: rejection-loop exits not covered in this run:", missing)
 		}
 	}
+	if len(optDomains) < 1 {
+		ck.Domains = append(ck.Domains, &drv.Domain{Name: "optional-domains-skipped", Size: 1, Run: func(c *drv.Ctx, lo, hi int64) {
+			c.Cap("the norm-test seam does not fit this tree: forced-rejections skipped")
+			c.Outcome("skipped")
+		}})
+	}
+	ck.Domains = append(ck.Domains, optDomains...)
 	drv.Main(ck)
 }
 
